@@ -244,6 +244,44 @@ func r47SchemaCopied(c *core.Ctx) {
 			return lit == nil
 		})
 	}
+	litInfo, litT := info, tParam
+	if lit == nil {
+		// the description is built by a module helper from the same table: AddGeometryTable(t.description()) or
+		// AddGeometryTable(describe(t))
+		for _, call := range core.CallsIn(info, bt.Decl, "github.com/go-spatial/geom/encoding/gpkg.Handle.AddGeometryTable") {
+			if len(call.Args) != 1 {
+				continue
+			}
+			hc, ok := ast.Unparen(call.Args[0]).(*ast.CallExpr)
+			if !ok {
+				continue
+			}
+			callee := core.Callee(info, hc)
+			if callee == nil {
+				continue
+			}
+			h := c.P.ByObj[callee.Origin()]
+			if h == nil || h.Decl.Body == nil || !core.IsModPath(h.Pkg.PkgPath) {
+				continue
+			}
+			hs := h.Obj.Type().(*types.Signature)
+			var ht *types.Var
+			if sel, ok := hc.Fun.(*ast.SelectorExpr); ok && hs.Recv() != nil && core.ObjOf(info, sel.X) == tParam {
+				ht = hs.Recv()
+			}
+			for i, a := range hc.Args {
+				if i < hs.Params().Len() && core.ObjOf(info, a) == tParam {
+					ht = hs.Params().At(i)
+				}
+			}
+			if ht == nil || assignedCount(h.Pkg.TypesInfo, h.Decl.Body, ht) != 0 {
+				continue
+			}
+			if hl := findLit(h.Pkg.TypesInfo, h.Decl.Body, "github.com/go-spatial/geom/encoding/gpkg.TableDescription"); hl != nil {
+				lit, litInfo, litT = hl, h.Pkg.TypesInfo, ht
+			}
+		}
+	}
 	want := map[string]string{"Name": "Name", "GeometryField": "gcolumn", "GeometryType": "gtype", "SRS": "srs.ID"}
 	got := map[string]string{}
 	if lit != nil {
@@ -252,7 +290,7 @@ func r47SchemaCopied(c *core.Ctx) {
 			if !ok {
 				continue
 			}
-			val := stripConv(info, kv.Value)
+			val := stripConv(litInfo, kv.Value)
 			// t.<field> chain
 			path := ""
 			for {
@@ -267,7 +305,7 @@ func r47SchemaCopied(c *core.Ctx) {
 				}
 				val = sel.X
 			}
-			if core.ObjOf(info, val) == tParam {
+			if core.ObjOf(litInfo, val) == litT {
 				got[canon(kv.Key)] = path
 			}
 		}
@@ -315,8 +353,110 @@ func r47SchemaCopied(c *core.Ctx) {
 	c.Check(R, "every-table-created-with-its-srs/"+ct.Name, ct.Decl.Pos(), okAll, "for every table: UpdateSRS(table.srs) then buildTable(handle, table); no table skipped", "CreateTables does not create every source table with its own spatial reference system")
 	// GetTableInfo: fields filled from the source catalogue row of the same table
 	ginfo := gi.Pkg.TypesInfo
-	src := canonNode(c.P, gi.Decl.Body)
-	okInfo := strings.Contains(src, "Scan(&t.Name,&t.gcolumn,") && len(core.CallsIn(ginfo, gi.Decl, "gpkg.getTableColumns")) == 1 && len(core.CallsIn(ginfo, gi.Decl, "gpkg.getSpatialReferenceSystem")) == 1 && len(core.CallsIn(ginfo, gi.Decl, "gpkg.geometryTypeFromString")) == 1
+	okInfo := len(core.CallsIn(ginfo, gi.Decl, "gpkg.getTableColumns")) == 1 && len(core.CallsIn(ginfo, gi.Decl, "gpkg.getSpatialReferenceSystem")) == 1 && len(core.CallsIn(ginfo, gi.Decl, "gpkg.geometryTypeFromString")) == 1
+	// every catalogue column lands in the field it describes: SELECT list and Scan destinations agree position by
+	// position (frozen tables of column -> destination; a destination "via:f" is a local that feeds field f)
+	r47ScanMatchesSelect(c, gi, map[string]string{"table_name": "Name", "column_name": "gcolumn", "geometry_type_name": "via:gtype", "srs_id": "via:srs"}, nil)
+	if f := c.Anchor(R, "gpkg.getSpatialReferenceSystem"); f != nil {
+		r47ScanMatchesSelect(c, f, map[string]string{"srs_name": "Name", "srs_id": "ID", "organization": "Organization", "organization_coordsys_id": "OrganizationCoordsysID", "definition": "Definition", "description": "via:Description"}, nil)
+	}
+	if f := c.Anchor(R, "gpkg.getTableColumns"); f != nil {
+		// PRAGMA table_info yields cid, name, type, notnull, dflt_value, pk in this order
+		r47ScanMatchesSelect(c, f, map[string]string{"cid": "cid", "name": "name", "type": "ctype", "notnull": "notnull", "dflt_value": "dfltValue", "pk": "pk"}, []string{"cid", "name", "type", "notnull", "dflt_value", "pk"})
+	}
 	c.Check(R, "table-description-read-from-source-catalogue/"+gi.Name, gi.Decl.Pos(), okInfo, "name and geometry column scanned from gpkg_geometry_columns; columns, geometry type and srs looked up for that table", "GetTableInfo no longer fills the table description from the source's catalogue")
 	c.Floor(R, 4)
+}
+
+
+// r47ScanMatchesSelect: the columns selected by the function's query (or fixedCols for a PRAGMA) and the
+// destinations of its Scan call agree position by position according to dest (column -> struct field of the one
+// record being filled, or "via:field" for a local variable that is later used to set that field).
+func r47ScanMatchesSelect(c *core.Ctx, f *core.Func, dest map[string]string, fixedCols []string) {
+	const R = "R47"
+	info := f.Pkg.TypesInfo
+	construct := "scan-matches-select/" + f.Name
+	cols := fixedCols
+	if cols == nil {
+		ast.Inspect(f.Decl.Body, func(n ast.Node) bool {
+			bl, ok := n.(*ast.BasicLit)
+			if !ok || bl.Kind != token.STRING {
+				return true
+			}
+			q, ok := core.ConstString(info, bl)
+			if !ok {
+				return true
+			}
+			up := strings.ToUpper(q)
+			i, j := strings.Index(up, "SELECT "), strings.Index(up, " FROM ")
+			if i < 0 || j < i {
+				return true
+			}
+			cols = nil
+			for _, col := range strings.Split(q[i+7:j], ",") {
+				cols = append(cols, strings.TrimSpace(col))
+			}
+			return true
+		})
+	}
+	var scan *ast.CallExpr
+	for _, call := range core.CallsIn(info, f.Decl, "database/sql.Rows.Scan", "database/sql.Row.Scan") {
+		scan = call
+	}
+	if cols == nil || scan == nil {
+		c.Bad(R, construct, f.Decl.Pos(), "no SELECT column list or no Scan call found")
+		return
+	}
+	if len(cols) != len(scan.Args) {
+		c.Bad(R, construct, scan.Pos(), fmt.Sprintf("%d columns selected but %d scanned", len(cols), len(scan.Args)))
+		return
+	}
+	var rec types.Object
+	bad := ""
+	for i, col := range cols {
+		want, known := dest[col]
+		if !known {
+			bad += fmt.Sprintf("column %s is not in the rule's table; ", col)
+			continue
+		}
+		u, ok := ast.Unparen(scan.Args[i]).(*ast.UnaryExpr)
+		if !ok || u.Op != token.AND {
+			bad += fmt.Sprintf("destination %d is not an address; ", i)
+			continue
+		}
+		switch x := ast.Unparen(u.X).(type) {
+		case *ast.SelectorExpr:
+			o := core.ObjOf(info, x.X)
+			if rec == nil {
+				rec = o
+			}
+			if o != rec || x.Sel.Name != want {
+				bad += fmt.Sprintf("column %s is scanned into .%s, expected .%s; ", col, x.Sel.Name, strings.TrimPrefix(want, "via:"))
+			}
+		case *ast.Ident:
+			if !strings.HasPrefix(want, "via:") {
+				bad += fmt.Sprintf("column %s is scanned into local %s, expected field %s; ", col, x.Name, want)
+				continue
+			}
+			local := info.Uses[x]
+			field := strings.TrimPrefix(want, "via:")
+			feeds := false
+			ast.Inspect(f.Decl.Body, func(n ast.Node) bool {
+				as, ok := n.(*ast.AssignStmt)
+				if !ok || len(as.Lhs) != 1 || len(as.Rhs) != 1 {
+					return true
+				}
+				if sel, ok := as.Lhs[0].(*ast.SelectorExpr); ok && sel.Sel.Name == field && core.UsesObj(info, as.Rhs[0], local) && as.Pos() > scan.Pos() {
+					feeds = true
+				}
+				return true
+			})
+			if !feeds {
+				bad += fmt.Sprintf("column %s is scanned into %s, which is not used to set .%s; ", col, x.Name, field)
+			}
+		default:
+			bad += fmt.Sprintf("destination %d is not understood; ", i)
+		}
+	}
+	c.Check(R, construct, scan.Pos(), bad == "", fmt.Sprintf("%d columns, each scanned into the field it describes", len(cols)), "the catalogue columns do not land in the fields they describe: "+bad)
 }
